@@ -1,0 +1,26 @@
+//! Schedule points for the external verification harness.
+//!
+//! Compiled only with `--cfg similari_verif`; without the flag neither this module nor any of
+//! its call sites exist. A harness installs a callback with [`set_hook`]; library threads call
+//! [`point`] at the places where the order of their steps matters (store worker commands,
+//! voting-thread jobs and their store writes, batch dispatch), which lets the harness log,
+//! delay or gate the calling thread and thereby force a chosen interleaving.
+
+use std::sync::{Arc, RwLock};
+
+pub type Hook = Arc<dyn Fn(&'static str, u64) + Send + Sync>;
+
+static HOOK: RwLock<Option<Hook>> = RwLock::new(None);
+
+/// Installs (or removes) the process-wide callback.
+pub fn set_hook(hook: Option<Hook>) {
+    *HOOK.write().unwrap() = hook;
+}
+
+/// Called by library threads at a schedule point; a no-op unless a callback is installed.
+pub fn point(site: &'static str, arg: u64) {
+    let hook = HOOK.read().unwrap().clone();
+    if let Some(hook) = hook {
+        hook(site, arg);
+    }
+}
